@@ -17,7 +17,9 @@ RULE = (
     "choice sequence and restores it. Decision: (a) defect 'none': check_grads must return normally in every trial; (b) defect cells: "
     "with m misses in N trials the cell violates iff the exact binomial tail P[X >= m | N, p = 0.01] < 1e-6, i.e. the miss rate is "
     "significantly above the allowed 1 % (a deterministic function of the seeds). Non-trivial = a defect cell, or a correct primitive "
-    "with complex / container arguments or order 2; distinct by cell."
+    "with complex / container arguments or order 2; distinct by cell. combo: combo_check over lists of 1-3 x 1-2 positional values and 1-3 x "
+    "1-2 keyword values of a two-argument primitive whose VJP or JVP rule is wrong (factor 1.1 or sign) for exactly one drawn combination "
+    "(or none), 20 trials, same binomial decision: every listed combination must actually be checked."
 )
 
 FAMILIES = ["elementwise", "matmul", "broadcast", "complex", "container", "scalar", "dict_complex"]
@@ -310,11 +312,98 @@ def cell_body(trials, c):
     return ok(nontrivial=True, key=cell, labels=labels + (["some_misses"] if misses else []), sample=sample)
 
 
+def combo_body(trials, c):
+    """combo_check: every combination of the listed positional values and keyword values is checked.  A two-argument primitive with two
+    keyword options carries a wrong rule (factor 1.1 / sign / transpose-like swap) for exactly one drawn combination - or for none."""
+    import autograd.numpy as anp
+    from autograd.extend import defjvp, defvjp, primitive
+    from autograd.test_util import combo_check
+
+    nx, nw = c.int(1, 3), c.int(1, 2)
+    scales = [1.0, 0.5, 2.0][:c.int(1, 3)]
+    kinds = ["sin", "tanh"][:c.int(1, 2)]
+    shape = c.choice([(), (3,), (2, 2)])
+    vseed = c.seed()
+    base = c.seed()
+    vals, _ = values.generic(vseed, [shape] * (nx + nw), 0.4, 1.2)
+    xs, ws = [onp.array(v) for v in vals[:nx]], [onp.array(v) for v in vals[nx:]]
+    has_defect = c.chance(3, 4)
+    bad = (c.int(0, nx - 1), c.int(0, nw - 1), scales[c.int(0, len(scales) - 1)], kinds[c.int(0, len(kinds) - 1)]) if has_defect else None
+    defect = c.choice(["factor", "sign"])
+    where = c.choice(["vjp_x", "vjp_w", "jvp_x", "jvp_w"])
+    modes_req = c.choice(["default", "rev", "fwd"])
+    if has_defect and ((modes_req == "rev" and where.startswith("jvp")) or (modes_req == "fwd" and where.startswith("vjp"))):
+        modes_req = "default"
+    K = {"sin": (onp.sin, onp.cos), "tanh": (onp.tanh, lambda t: 1.0 - onp.tanh(t) ** 2)}
+
+    def is_bad(x, w, scale, kind, slot):
+        if bad is None or slot != where:
+            return False
+        return (onp.array_equal(x, xs[bad[0]]) and onp.array_equal(w, ws[bad[1]]) and scale == bad[2] and kind == bad[3])
+
+    def spoil(val):
+        return val * 1.1 if defect == "factor" else -val
+
+    @primitive
+    def h(x, w, scale=1.0, kind="sin"):
+        return scale * K[kind][0](x) * w
+
+    defvjp(h,
+           lambda ans, x, w, scale=1.0, kind="sin": lambda g: (spoil if is_bad(x, w, scale, kind, "vjp_x") else (lambda t: t))(g * scale * K[kind][1](x) * w),
+           lambda ans, x, w, scale=1.0, kind="sin": lambda g: (spoil if is_bad(x, w, scale, kind, "vjp_w") else (lambda t: t))(g * scale * K[kind][0](x)))
+    defjvp(h,
+           lambda g, ans, x, w, scale=1.0, kind="sin": (spoil if is_bad(x, w, scale, kind, "jvp_x") else (lambda t: t))(g * scale * K[kind][1](x) * w),
+           lambda g, ans, x, w, scale=1.0, kind="sin": (spoil if is_bad(x, w, scale, kind, "jvp_w") else (lambda t: t))(g * scale * K[kind][0](x)))
+
+    def fun(x, w, scale=1.0, kind="sin"):
+        return anp.sum(h(x, w, scale=scale, kind=kind)) if len(shape) else h(x, w, scale=scale, kind=kind)
+
+    sample = {"nx": nx, "nw": nw, "scales": scales, "kinds": kinds, "shape": list(shape), "bad": list(bad) if bad else None, "defect": defect if bad else None,
+              "where": where if bad else None, "modes": modes_req, "trials": trials, "vseed": vseed, "seed_base": base}
+    kw = {"order": 1}
+    if modes_req != "default":
+        kw["modes"] = [modes_req]
+    state = onp.random.get_state()
+    rejected = 0
+    first = None
+    try:
+        for i in range(trials):
+            onp.random.seed((base * 7919 + i * 104729 + 4321) % (2 ** 32))
+            try:
+                combo_check(fun, (0, 1), **kw)(xs, ws, scale=scales, kind=kinds)
+            except AssertionError as e:
+                rejected += 1
+                first = first or str(e)[:160]
+            except Exception as e:
+                if not from_autograd(e):
+                    raise
+                onp.random.set_state(state)
+                return fail("unexpected_exception", describe_exc(e), "C18|combo|exception", sample=sample)
+    finally:
+        onp.random.set_state(state)
+    ncombo = nx * nw * len(scales) * len(kinds)
+    labels = ["combo", f"combinations={min(ncombo, 12)}", "defect=" + (defect if bad else "none"), "modes=" + modes_req]
+    key = json.dumps({k: v for k, v in sample.items() if k not in ("vseed", "seed_base")})
+    if bad is None:
+        if rejected:
+            return fail("false_rejection", f"combo_check rejected a correct primitive in {rejected}/{trials} trials: {first}", "C18|combo|false_rejection", sample=sample)
+        return ok(nontrivial=ncombo >= 2, key=key, labels=labels, sample=sample)
+    misses = trials - rejected
+    tail = binom_tail(trials, misses) if misses else 1.0
+    if misses and tail < 1e-6:
+        last = bad == (nx - 1, nw - 1, scales[-1], kinds[-1])
+        firstc = bad == (0, 0, scales[0], kinds[0])
+        return fail("missed_defect", f"combo_check accepted a rule that is wrong for the combination {list(bad)} in {misses}/{trials} trials "
+                    f"(P[X>={misses} | p=0.01] = {tail:.2e})", f"C18|combo|missed|{'first' if firstc else 'last' if last else 'inner'}", sample=sample)
+    return ok(nontrivial=ncombo >= 2, key=key, labels=labels, sample=sample)
+
+
 from functools import partial  # noqa: E402
 
 PROP = Prop("C18", [
     Test("cells", partial(cell_body, 100), quick=960, thorough=0, shard_size=30),
     Test("cells_300", partial(cell_body, 300), quick=0, thorough=2000, shard_size=60),
+    Test("combo", partial(combo_body, 20), quick=320, thorough=3000, shard_size=20),
 ], RULE, level="exploration", assumptions=[
     "statistical decision rule: one-sided exact binomial test at alpha = 1e-6 per cell against the stated 0.99 rejection probability; "
     "a checker whose power lies between ~0.93 and 0.99 can go undetected",
